@@ -67,6 +67,10 @@ func loadSpecs(dir string, U *Universe) (*SpecSet, error) {
 	// core functions of the prelude
 	ss.Funs["Out.str"] = SpecFun{Name: "Out.str", Args: []string{"Out"}, Ret: "Str"}
 	ss.Funs["Str.cat"] = SpecFun{Name: "Str.cat", Args: []string{"Str", "Str"}, Ret: "Str"}
+	ss.Funs["OEmpty"] = SpecFun{Name: "OEmpty", Ret: "Out"}
+	ss.Funs["OByte"] = SpecFun{Name: "OByte", Args: []string{"Out", "Int"}, Ret: "Out"}
+	ss.Funs["OStr"] = SpecFun{Name: "OStr", Args: []string{"Out", "Str"}, Ret: "Out"}
+	ss.Funs["ORune"] = SpecFun{Name: "ORune", Args: []string{"Out", "Int"}, Ret: "Out"}
 	ss.Funs["strings.ReplaceAll"] = SpecFun{Name: "strings.ReplaceAll", Args: []string{"Str", "Str", "Str"}, Ret: "Str"}
 	ss.Funs["strings.TrimLeft"] = SpecFun{Name: "strings.TrimLeft", Args: []string{"Str", "Str"}, Ret: "Str"}
 	ss.Funs["strconv.FormatUint"] = SpecFun{Name: "strconv.FormatUint", Args: []string{"Int", "Int"}, Ret: "Str"}
